@@ -35,6 +35,12 @@ Definition judge_format (d : dec) (outs : list str) (back : list (option dec)) :
                                    end) (combine fmts back) && (length back =? 13)%nat) O_ROUNDTRIP
       else []).
 
+(* exponents beyond the package limits (any Decimal can be formatted): G, E, String, %e *)
+Definition judge_format_extreme (d : dec) (g e s pe : str) : list Z :=
+  flag (str_eqb (format_text ch_G d) g && str_eqb (format_text ch_E d) e && str_eqb (format_text ch_G d) s
+        && str_eqb (format_text ch_e d) pe) K_TEXT
+  ++ flag (str_eqb g (sci_string d) && str_eqb s (sci_string d)) O_SCI.
+
 (* SetString(s): res = Some (d, cond) or None; agree = the other entry points agree *)
 Definition judge_parse (s : str) (res : option (dec * Z)) (agree : bool) : list Z :=
   match new_from_string go_est s with
